@@ -2,11 +2,15 @@ import Driver.Common
 import Driver.AstJson
 import GqlModel.Parser
 import GqlModel.Grammar
+import GqlModel.DescLoc
 /-! Driver for C03 (parser half).
 `{"tokens":[[kind,start,stop,value],…], "goAst": <astjson>|null}` →
 `{"M":{"ok":bool,"errPos":n|null,"fuel":bool,"astEq":bool|null,"mAst":str?,"gAst":str?},"S":{"accept":bool|null},"kf":[…]}`
 `astEq` compares the decoded Go AST with the model's AST structurally, locations included, through a canonical
-rendering (`render`, injective: every string is quoted, every list bracketed). -/
+rendering (`render`, injective: every string is quoted, every list bracketed).  The shared AST keeps descriptions as
+values only, so the `Description.Loc`s travel beside it: `"descLocs":[[start,end],…]` are those of the real AST in
+document order (harness walk), the model's are `Definition.descLocs` (GqlModel/DescLoc.lean: the extent of the token
+the described node starts with); both lists are appended to the renderings that `astEq` compares. -/
 open Lean GqlModel
 
 namespace Driver.C03
@@ -84,6 +88,23 @@ def rDef : Definition → String
 
 def rDoc (d : Document) : String := s!"doc({rList rDef d.defs}{rLoc d.loc})"
 
+/-- the `Description.Loc`s, in document order -/
+def rDescLocs (ls : List (Option Loc)) : String := " descLocs" ++ rList (rOpt rLoc) ls
+
+def decDescLocs (j : Json) : Except String (List (Option Loc)) := do
+  match Driver.getOpt j "descLocs" with
+  | none => pure []
+  | some a =>
+    match a with
+    | .arr xs => xs.toList.mapM (fun x => do
+        match x with
+        | .arr #[s, e] =>
+          match s.getNat?, e.getNat? with
+          | .ok a, .ok b => pure (some (⟨a, b⟩ : Loc))
+          | _, _ => pure none
+        | _ => pure none)  -- a negative or missing offset in the real AST: never equal to a model location
+    | _ => throw "bad descLocs"
+
 /-- `{"tokens":[…tokens that lexed…], "lazy":true}`: the text has a malformed lexeme after these tokens -/
 def complJson (pre : List Token) : Json :=
   match Grammar.certifiedCompletion pre with
@@ -114,11 +135,12 @@ def handle (j : Json) : Except String Json := do
     | none => Json.mkObj [("accept", Json.null), ("fuel", Json.bool true)]
   match Parser.parseTokens toks with
   | .ok p =>
-    let m := rDoc p.doc
+    let m := rDoc p.doc ++ rDescLocs (p.doc.defs.flatMap (·.descLocs toks))
+    let gDescLocs ← decDescLocs j
     let (eq, extra) := match goAst with
       | none => (Json.null, [])
       | some g =>
-        let gs := rDoc g
+        let gs := rDoc g ++ rDescLocs gDescLocs
         if gs == m then (Json.bool true, []) else (Json.bool false, [("mAst", Json.str m), ("gAst", Json.str gs)])
     let kf : List Json := if p.typeRefMalformed then [Json.str "typeRefMalformed"] else []
     return Json.mkObj [("M", Json.mkObj ([("ok", Json.bool true), ("errPos", Json.null), ("fuel", Json.bool false), ("astEq", eq)] ++ extra)),
